@@ -3,6 +3,7 @@ package eval
 import (
 	"bytes"
 	"math"
+	"slices"
 	"strings"
 
 	"fortio.org/log"
@@ -82,7 +83,7 @@ func (s *State) evalIndexAssigment(which ast.Node, index, value object.Object) o
 		if idx < 0 || idx >= int64(object.Len(val)) {
 			return s.NewError("index assignment out of bounds: " + index.Inspect())
 		}
-		elements := object.Elements(val)
+		elements := slices.Clone(object.Elements(val)) // arrays are values: don't write into storage other bindings share.
 		elements[idx] = value
 		oerr := s.env.Set(id.Literal(), object.NewArray(elements))
 		if oerr.Type() == object.ERROR {
@@ -90,7 +91,7 @@ func (s *State) evalIndexAssigment(which ast.Node, index, value object.Object) o
 		}
 		return value
 	case object.MAP:
-		m := val.(object.Map)
+		m := object.CopyMap(val.(object.Map)) // maps are values: don't write into storage other bindings share.
 		m = m.Set(index, value)
 		oerr := s.env.Set(id.Literal(), m)
 		if oerr.Type() == object.ERROR {
@@ -488,7 +489,7 @@ func (s *State) deleteMapEntry(idxE *ast.IndexExpression, index object.Object) o
 		return s.NewError("delete index on non map: " + id + " " + obj.Type().String())
 	}
 	log.LogVf("remove map: %s from %s", index.Inspect(), id)
-	m := obj.(object.Map)
+	m := object.CopyMap(obj.(object.Map)) // maps are values: don't write into storage other bindings share.
 	m, changed := m.Delete(index)
 	if !changed {
 		return object.FALSE
@@ -1262,6 +1263,7 @@ func (s *State) evalArrayInfixExpression(operator token.Type, left, right object
 		}
 		return object.NewArray(result)
 	case token.PLUS: // concat / append
+		leftVal = leftVal[:len(leftVal):len(leftVal)] // force append to copy: spare capacity may be shared with other arrays.
 		if right.Type() != object.ARRAY {
 			return object.NewArray(append(leftVal, object.Value(right)))
 		}
